@@ -374,6 +374,12 @@ pub fn from_slice<T: DeserializeOwned>(_: &[u8]) -> Result<T> {
 /// Result of `json!({ "k": expr })` in the model: the token text of `expr` (the wrapping
 /// object is dropped consistently on the encode side; harness stand-ins decode the bare text).
 pub struct RawText(pub String);
+impl RawText {
+    /// fmt-free (inherent, so that `json!({..}).to_string()` does not go through core::fmt)
+    pub fn to_string(&self) -> String {
+        self.0.clone()
+    }
+}
 impl fmt::Display for RawText {
     fn fmt(&self, f: &mut fmt::Formatter<'_>) -> fmt::Result {
         f.write_str(&self.0)
